@@ -4,11 +4,11 @@ use crate::sq::*;
 use crate::*;
 use sea_query::*;
 
-#[derive(Clone, Copy, Debug, PartialEq)]
-pub enum Op { Columns(usize), Values(usize), ValuesPanic(usize), SelectFrom(usize), Defaults(usize) }
+#[derive(Clone, Debug, PartialEq)]
+pub enum Op { Columns(usize), Values(usize), ValuesPanic(usize), SelectFrom(usize), Defaults(usize), ValuesFrom(Vec<usize>) }
 
 fn opname(o: &Op) -> String {
-    match o { Op::Columns(n) => format!("(columns {n})"), Op::Values(n) => format!("(values {n})"), Op::ValuesPanic(n) => format!("(values_panic {n})"), Op::SelectFrom(n) => format!("(select_from {n})"), Op::Defaults(n) => format!("(defaults {n})") }
+    match o { Op::Columns(n) => format!("(columns {n})"), Op::Values(n) => format!("(values {n})"), Op::ValuesPanic(n) => format!("(values_panic {n})"), Op::SelectFrom(n) => format!("(select_from {n})"), Op::Defaults(n) => format!("(defaults {n})"), Op::ValuesFrom(v) => format!("(values_from{})", v.iter().map(|n| format!(" {n}")).collect::<String>()) }
 }
 fn fmt_list(v: &[u64]) -> String { format!("[{}]", v.iter().map(|x| x.to_string()).collect::<Vec<_>>().join(",")) }
 
@@ -83,7 +83,22 @@ fn check(ctx: &mut Ctx, ops: &[Op]) {
     let mut recount = false;
     for op in ops {
         if dead { break; }
-        match *op {
+        match op.clone() {
+            Op::ValuesFrom(lens) => {
+                let mut rows: Vec<Vec<SimpleExpr>> = Vec::new();
+                let mut all_cells: Vec<Vec<u64>> = Vec::new();
+                for n in &lens { let cells: Vec<u64> = (0..*n as u64).map(|i| ctr + i).collect(); ctr += *n as u64; rows.push(cells.iter().map(|c| Expr::val(*c).into()).collect()); all_cells.push(cells); }
+                let r = catch(|| { st.values_from_panic(rows); });
+                let should_panic = lens.iter().any(|n| *n != exp_cols);
+                match r {
+                    None => { outs.push("panic".into()); dead = true; if !should_panic { ctx.oracle_fail("values_from_panic panicked although every row has the right length", serde_json::json!({"history": line})); } }
+                    Some(()) => {
+                        outs.push("ok".into());
+                        if should_panic { ctx.oracle_fail("values_from_panic accepted a batch containing a row of the wrong length", serde_json::json!({"history": line, "columns": exp_cols, "row_lengths": lens})); }
+                        for cells in all_cells { if !cells.is_empty() { if exp_select.take().is_some() { exp_rows.clear(); } exp_rows.push(cells); } }
+                    }
+                }
+            }
             Op::Columns(n) => {
                 if n != exp_cols && !exp_rows.is_empty() { recount = true; }
                 st.columns((0..n).map(|i| Alias::new(format!("c{i}")))); outs.push("ok".into()); exp_cols = n;
@@ -93,7 +108,7 @@ fn check(ctx: &mut Ctx, ops: &[Op]) {
                 ctr += n as u64;
                 let before = st.clone();
                 let exprs: Vec<SimpleExpr> = cells.iter().map(|c| Expr::val(*c).into()).collect();
-                let is_panic = matches!(op, Op::ValuesPanic(_));
+                let is_panic = matches!(op, &Op::ValuesPanic(_));
                 let r = catch(|| {
                     if is_panic { st.values_panic(exprs); Ok(()) } else { st.values(exprs).map(|_| ()) }
                 });
@@ -168,12 +183,13 @@ pub fn run(ctx: &mut Ctx) {
     for n in 0..=3 { calls.push(Op::Columns(n)); calls.push(Op::Values(n)); }
     for n in [0usize, 1, 2] { calls.push(Op::ValuesPanic(n)); calls.push(Op::SelectFrom(n)); }
     calls.push(Op::Defaults(1)); calls.push(Op::Defaults(3));
+    calls.push(Op::ValuesFrom(vec![1, 1])); calls.push(Op::ValuesFrom(vec![2, 1])); calls.push(Op::ValuesFrom(vec![2, 2, 0])); calls.push(Op::ValuesFrom(vec![0, 1]));
     let maxlen = if thorough { 5 } else { 4 };
-    ctx.rule = format!("ALL call histories of length 0..={} over the {} calls {{columns(0..3), values(0..3), values_panic(0..2), select_from(0..2), or_default_values, or_default_values_many(3)}} (exhaustive), plus {} random histories up to length 9 with counts up to 6; each rendered on 3 backends. Compared with the model: per-call outcome (ok / err with both counts / panic) and the INSERT shape parsed back from the SQL. Oracle: acceptance iff lengths match, error payload, statement unchanged (==) after a rejected call, rendered rows = accepted rows in call order, rectangularity. Non-trivial = at least 2 calls; distinct by history.", maxlen, calls.len(), if thorough { 100000 } else { 20000 });
+    ctx.rule = format!("ALL call histories of length 0..={} over the {} calls {{columns(0..3), values(0..3), values_panic(0..2), select_from(0..2), or_default_values, or_default_values_many(3), values_from_panic with 4 batch shapes}} (exhaustive), plus {} random histories up to length 9 with counts up to 6; each rendered on 3 backends. Compared with the model: per-call outcome (ok / err with both counts / panic) and the INSERT shape parsed back from the SQL. Oracle: acceptance iff lengths match, error payload, statement unchanged (==) after a rejected call, rendered rows = accepted rows in call order, rectangularity. Non-trivial = at least 2 calls; distinct by history.", maxlen, calls.len(), if thorough { 100000 } else { 20000 });
     for len in 0..=maxlen {
         let mut idx = vec![0usize; len];
         loop {
-            let ops: Vec<Op> = idx.iter().map(|&i| calls[i]).collect();
+            let ops: Vec<Op> = idx.iter().map(|&i| calls[i].clone()).collect();
             check(ctx, &ops);
             let mut k = len; let mut done = false;
             loop { if k == 0 { done = true; break; } k -= 1; idx[k] += 1; if idx[k] < calls.len() { break; } idx[k] = 0; }
@@ -185,7 +201,7 @@ pub fn run(ctx: &mut Ctx) {
     for _ in 0..n {
         let mut r = ctx.rng.fork();
         let len = r.below(10) as usize;
-        let ops: Vec<Op> = (0..len).map(|_| { let k = r.below(7) as usize; match r.below(10) { 0..=2 => Op::Columns(k), 3..=6 => Op::Values(k), 7 => Op::ValuesPanic(k), 8 => Op::SelectFrom(k), _ => Op::Defaults(1 + k) } }).collect();
+        let ops: Vec<Op> = (0..len).map(|_| { let k = r.below(7) as usize; match r.below(10) { 0..=2 => Op::Columns(k), 3..=6 => Op::Values(k), 7 => Op::ValuesPanic(k), 8 => Op::SelectFrom(k), _ => if r.chance(1, 2) { Op::Defaults(1 + k) } else { Op::ValuesFrom((0..r.below(4)).map(|_| if r.chance(2, 3) { k } else { r.below(5) as usize }).collect()) } } }).collect();
         check(ctx, &ops);
     }
 }
